@@ -18,7 +18,7 @@ from concurrent.futures import ProcessPoolExecutor, as_completed
 VERIF = os.path.abspath(os.path.join(os.path.dirname(__file__), ".."))
 REPO = "/repo"
 PY = "/venv/bin/python"
-OUT = os.path.join(VERIF, "out", "mutation")
+OUT = os.path.join(VERIF, "mutation")
 
 T, D, U, O, P, L = "opticomlib/typing.py", "opticomlib/devices.py", "opticomlib/utils.py", "opticomlib/ook.py", "opticomlib/ppm.py", "opticomlib/lab.py"
 ES, OS_, BS, GV = "electrical_signal", "optical_signal", "binary_sequence", "global_variables"
